@@ -322,13 +322,16 @@ theorem WTcx_with {cx : Cx} (h : WTcx cx) {t : MTy} (ht : WT t = true) : WTcx (c
 
 /-- the signatures of the environment are written types -/
 def EnvPlain (env : Env) : Prop :=
-  ∀ f sig, env.fns.lookup f = some sig → sig.params.all plain = true ∧ plain sig.ret = true
+  (∀ f sig, env.fns.lookup f = some sig → sig.params.all plain = true ∧ plain sig.ret = true) ∧
+  (∀ c t, env.consts.lookup c = some t → plain t = true)
 
 /-! the constructs of the fragment `infer_sound` covers -/
 mutual
 def coreE : Expr → Bool
-  | .intLit _ | .floatLit _ | .boolLit | .strLit | .unitLit | .var _ => true
-  | .neg e | .not e => coreE e
+  | .intLit _ | .floatLit _ | .boolLit | .strLit | .unitLit | .var _ | .const _ | .none => true
+  | .neg e | .not e | .some e | .try e => coreE e
+  | .listLit es => coreL es
+  | .for _ e b => coreE e && coreB b
   | .bin op l r => op != .div && coreE l && coreE r
   | .ite c t none => coreE c && coreB t
   | .ite c t (some e) => coreE c && coreB t && coreB e
@@ -372,6 +375,12 @@ def PostS (env : Env) (cx : Cx) (g : MGamma) (ss : List Stmt) (st : St) (g' : MG
 
 /-- the expression was checked against a type `found` that the expected type was unified with -/
 theorem inst_of_eq {t a b : Ty} (h : inst t a = true) (e : b = a) : inst t b = true := e ▸ h
+
+def PostList (env : Env) (cx : Cx) (g : MGamma) (es : List Expr) (st : St) (d : Bool) (st' : St) : Prop :=
+  WTs st'.store ∧ ∀ σ : Val, GVal σ → Sat σ st'.store → Sat σ st.store ∧
+    ∀ gd, gammaInst gd (denG σ g) = true →
+      ∃ ts dd, synthList env (denCx σ cx) gd es = .ok (ts, dd) ∧
+        (∀ t ∈ ts, inst t (den σ cx.expected) = true) ∧ (d = true → dd = true)
 
 def PostArgs (env : Env) (cx : Cx) (g : MGamma) (es : List Expr) (ps : List Ty) (st : St) (d : Bool) (st' : St) : Prop :=
   WTs st'.store ∧ ∀ σ : Val, GVal σ → Sat σ st'.store → Sat σ st.store ∧
@@ -994,5 +1003,214 @@ theorem binopWith_sound {env : Env} {cx : Cx} {g : MGamma} {l r : Expr} {op : Bi
     obtain ⟨c, st0, h0, h1⟩ := bind_ok.mp h
     obtain ⟨rfl, rfl⟩ := pure_ok.mp h0
     exact logic_case (Or.inr rfl) hl hr hW hcx h1
+
+end RotoV.TcInfer
+
+namespace RotoV.TcInfer
+open RotoV.Typing RotoV.Unify RotoV.Gen
+
+theorem den_tOption (σ : Val) (a : MTy) : den σ (tOption a) = .opt (den σ a) := by
+  simp [tOption, den, denL, denName, nmOption]
+theorem den_tList (σ : Val) (a : MTy) : den σ (tList a) = .list (den σ a) := by
+  simp [tList, den, denL, denName, nmList]
+theorem WT_tOption {a : MTy} (ha : WT a = true) : WT (tOption a) = true := by
+  simp [tOption, WT, WTl, ha, arity, nmOption]
+theorem WT_tList {a : MTy} (ha : WT a = true) : WT (tList a) = true := by
+  simp [tList, WT, WTl, ha, arity, nmList, nmOption]
+
+abbrev IH (env : Env) (e : Expr) : Prop :=
+  ∀ cx g st d st', WTs st.store → WTcx cx → WTg g → infer env cx g e st = .ok d st' → PostE env cx g e st d st'
+
+theorem some_sound {env : Env} {e : Expr} (ih : IH env e)
+    {cx : Cx} {g : MGamma} {st : St} {d : Bool} {st' : St} (hW : WTs st.store) (hcx : WTcx cx) (hg : WTg g)
+    (h : infer env cx g (.some e) st = .ok d st') : PostE env cx g (.some e) st d st' := by
+  simp only [infer] at h
+  obtain ⟨v, s1, h1, h2⟩ := bind_ok.mp h
+  obtain ⟨rfl, hE1⟩ := freshVar_ok h1
+  obtain ⟨d1, s2, h3, h4⟩ := bind_ok.mp h2
+  obtain ⟨u, s3, h5, h6⟩ := bind_ok.mp h4
+  obtain ⟨rfl, rfl⟩ := pure_ok.mp h6
+  obtain ⟨hW2, hp⟩ := ih (cx.withTy (.var st.store.length)) g s1 d1 s2 (hE1.1 hW) (WTcx_with hcx (WT_var _)) hg h3
+  obtain ⟨hW3, hE3, heq3⟩ := unifyM_ok h5 hW2 hcx.1 (WT_tOption (WT_var _))
+  refine ⟨hW3, fun σ hσ hs => ?_⟩
+  have hs2 := hE3.2 σ hs
+  obtain ⟨hs1, hsyn⟩ := hp σ hσ hs2
+  refine ⟨hE1.2 σ hs1, fun gd hgd => ?_⟩
+  obtain ⟨t, dd, a1, a2, a3⟩ := hsyn gd hgd
+  have a1' : synth env (denCx σ cx) gd e = .ok (t, dd) := a1
+  refine ⟨.opt t, dd, by simp only [synth, a1', bind, Except.bind, pure, Except.pure], ?_, a3⟩
+  rw [heq3 σ hs, den_tOption]; simp only [inst]; exact a2
+
+theorem none_sound {env : Env}
+    {cx : Cx} {g : MGamma} {st : St} {d : Bool} {st' : St} (hW : WTs st.store) (hcx : WTcx cx)
+    (h : infer env cx g .none st = .ok d st') : PostE env cx g .none st d st' := by
+  simp only [infer] at h
+  obtain ⟨v, s1, h1, h2⟩ := bind_ok.mp h
+  obtain ⟨rfl, hE1⟩ := freshVar_ok h1
+  obtain ⟨u, s3, h5, h6⟩ := bind_ok.mp h2
+  obtain ⟨rfl, rfl⟩ := pure_ok.mp h6
+  obtain ⟨hW3, hE3, heq3⟩ := unifyM_ok h5 (hE1.1 hW) hcx.1 (WT_tOption (WT_var _))
+  refine ⟨hW3, fun σ hσ hs => ⟨hE1.2 σ (hE3.2 σ hs), fun gd hgd => ?_⟩⟩
+  refine ⟨.opt .unknown, false, rfl, ?_, by simp⟩
+  rw [heq3 σ hs, den_tOption]; rfl
+
+theorem try_sound {env : Env} {e : Expr} (ih : IH env e)
+    {cx : Cx} {g : MGamma} {st : St} {d : Bool} {st' : St} (hW : WTs st.store) (hcx : WTcx cx) (hg : WTg g)
+    (h : infer env cx g (.try e) st = .ok d st') : PostE env cx g (.try e) st d st' := by
+  simp only [infer] at h
+  obtain ⟨d1, s2, h3, h4⟩ := bind_ok.mp h
+  obtain ⟨hW2, hp⟩ := ih (cx.withTy (tOption cx.expected)) g st d1 s2 hW (WTcx_with hcx (WT_tOption hcx.1)) hg h3
+  cases hr : cx.ret with
+  | none => simp only [hr] at h4; exact (throw_ok.mp h4).elim
+  | some ret =>
+    simp only [hr] at h4
+    obtain ⟨r, s3, h5, h6⟩ := bind_ok.mp h4
+    obtain ⟨rfl, hres⟩ := resolveM_ok h5
+    have hWr : WT r = true := resolve_WT hW2 (hcx.2 ret hr) hres
+    cases r with
+    | name n args =>
+      simp only at h6
+      by_cases hn : (n == nmOption) = true
+      · simp only [hn, if_true] at h6
+        obtain ⟨rfl, rfl⟩ := pure_ok.mp h6
+        have hn' : n = nmOption := by simpa using hn
+        subst hn'
+        refine ⟨hW2, fun σ hσ hs => ?_⟩
+        obtain ⟨hs0, hsyn⟩ := hp σ hσ hs
+        refine ⟨hs0, fun gd hgd => ?_⟩
+        obtain ⟨t, dd, a1, a2, a3⟩ := hsyn gd hgd
+        have a1' : synth env (denCx σ cx) gd e = .ok (t, dd) := a1
+        have a2' : inst t (.opt (den σ cx.expected)) = true := by
+          have : inst t (den σ (tOption cx.expected)) = true := a2
+          rwa [den_tOption] at this
+        have hret : (denCx σ cx).retTy = some (.opt ((denL σ args).headD .unit)) := by
+          have : den σ ret = den σ (.name nmOption args) := (resolve_den hs hres).symm
+          simp only [denCx, hr, Option.map_some, this, den, denName, nmOption]
+          rfl
+        cases t with
+        | opt t' =>
+          refine ⟨t', dd, ?_, by simpa [inst] using a2', a3⟩
+          simp only [synth, a1', hret, bind, Except.bind, pure, Except.pure]
+        | unknown =>
+          refine ⟨.unknown, dd, ?_, rfl, a3⟩
+          simp only [synth, a1', hret, bind, Except.bind, pure, Except.pure]
+        | never =>
+          refine ⟨.unknown, dd, ?_, rfl, a3⟩
+          simp only [synth, a1', hret, bind, Except.bind, pure, Except.pure]
+        | _ => simp [inst] at a2'
+      · simp only [hn, Bool.false_eq_true, if_false] at h6; exact (throw_ok.mp h6).elim
+    | var _ => exact (throw_ok.mp h6).elim
+    | intVar _ _ => exact (throw_ok.mp h6).elim
+    | floatVar _ => exact (throw_ok.mp h6).elim
+    | unit => exact (throw_ok.mp h6).elim
+    | _ => simp [WT] at hWr
+
+/-- a `for` loop, given the list expression and the body -/
+theorem for_sound {env : Env} {x : Nat} {e : Expr} {b : Block} (ih : IH env e)
+    (ihb : ∀ cx g st d st', WTs st.store → WTcx cx → WTg g → inferBlock env cx g b st = .ok d st' →
+      PostB env cx g b st d st')
+    {cx : Cx} {g : MGamma} {st : St} {d : Bool} {st' : St} (hW : WTs st.store) (hcx : WTcx cx) (hg : WTg g)
+    (h : infer env cx g (.for x e b) st = .ok d st') : PostE env cx g (.for x e b) st d st' := by
+  simp only [infer] at h
+  obtain ⟨v, s1, h1, h2⟩ := bind_ok.mp h
+  obtain ⟨rfl, hE1⟩ := freshVar_ok h1
+  obtain ⟨d1, s2, h3, h4⟩ := bind_ok.mp h2
+  obtain ⟨db, s3, h5, h6⟩ := bind_ok.mp h4
+  obtain ⟨u, s4, h7, h8⟩ := bind_ok.mp h6
+  obtain ⟨rfl, rfl⟩ := pure_ok.mp h8
+  obtain ⟨hW2, hp⟩ := ih (cx.withTy (tList (.var st.store.length))) g s1 d1 s2 (hE1.1 hW)
+    (WTcx_with hcx (WT_tList (WT_var _))) hg h3
+  have hg' : WTg ([(x, MTy.var st.store.length)] :: g) := by
+    intro s hs p hp
+    cases hs with
+    | head => simp only [List.mem_singleton] at hp; subst hp; exact WT_var _
+    | tail _ h' => exact hg s h' p hp
+  obtain ⟨hW3, hpb⟩ := ihb cx ([(x, .var st.store.length)] :: g) s2 db s3 hW2 hcx hg' h5
+  obtain ⟨hW4, hE4, heq4⟩ := unifyM_ok h7 hW3 hcx.1 WT_unit
+  refine ⟨hW4, fun σ hσ hs => ?_⟩
+  have hs3 := hE4.2 σ hs
+  obtain ⟨hs2, hsynb⟩ := hpb σ hσ hs3
+  obtain ⟨hs1, hsyn⟩ := hp σ hσ hs2
+  refine ⟨hE1.2 σ hs1, fun gd hgd => ?_⟩
+  obtain ⟨t, dd, a1, a2, a3⟩ := hsyn gd hgd
+  have a1' : synth env (denCx σ cx) gd e = .ok (t, dd) := a1
+  have a2' : inst t (.list (σ st.store.length)) = true := by
+    have : inst t (den σ (tList (.var st.store.length))) = true := a2
+    rwa [den_tList] at this
+  have hgr := hσ st.store.length
+  have hexp : den σ cx.expected = .unit := by rw [heq4 σ hs]; rfl
+  have key : ∀ elemd : Ty, inst elemd (σ st.store.length) = true →
+      ∃ tb ddb, synthBlock env (denCx σ cx) ([(x, elemd)] :: gd) b = .ok (tb, ddb) ∧ inst tb .unit = true := by
+    intro elemd hi
+    have : gammaInst ([(x, elemd)] :: gd) (denG σ ([(x, .var st.store.length)] :: g)) = true := by
+      simp only [denG, denS, den, gammaInst, scopeInst, beq_self_eq_true, hi, hgr, hgd, Bool.and_self]
+    obtain ⟨tb, ddb, b1, b2, _⟩ := hsynb _ this
+    exact ⟨tb, ddb, b1, by rw [hexp] at b2; exact b2⟩
+  cases t with
+  | list t' =>
+    obtain ⟨tb, ddb, b1, b2⟩ := key t' (by simpa [inst] using a2')
+    refine ⟨.unit, dd, ?_, by rw [hexp]; rfl, a3⟩
+    simp only [synth, a1', b1, expect_ok' (inst_compat tb .unit rfl b2), bind, Except.bind, pure, Except.pure]
+  | unknown =>
+    obtain ⟨tb, ddb, b1, b2⟩ := key .unknown rfl
+    refine ⟨.unit, dd, ?_, by rw [hexp]; rfl, a3⟩
+    simp only [synth, a1', b1, expect_ok' (inst_compat tb .unit rfl b2), bind, Except.bind, pure, Except.pure]
+  | never =>
+    obtain ⟨tb, ddb, b1, b2⟩ := key .unknown rfl
+    refine ⟨.unit, dd, ?_, by rw [hexp]; rfl, a3⟩
+    simp only [synth, a1', b1, expect_ok' (inst_compat tb .unit rfl b2), bind, Except.bind, pure, Except.pure]
+  | _ => simp [inst] at a2'
+
+theorem const_sound {env : Env} (henv : EnvPlain env) {c : Nat}
+    {cx : Cx} {g : MGamma} {st : St} {d : Bool} {st' : St} (hW : WTs st.store) (hcx : WTcx cx)
+    (h : infer env cx g (.const c) st = .ok d st') : PostE env cx g (.const c) st d st' := by
+  simp only [infer] at h
+  obtain ⟨p, st1, h1, h2⟩ := bind_ok.mp h
+  unfold rootTy at h1
+  simp only [if_true] at h1
+  cases hl : env.consts.lookup c with
+  | none => simp only [hl] at h1; exact (throw_ok.mp h1).elim
+  | some t =>
+    simp only [hl] at h1
+    obtain ⟨rfl, rfl⟩ := pure_ok.mp h1
+    simp only at h2
+    obtain ⟨u, st2, h3, h4⟩ := bind_ok.mp h2
+    obtain ⟨rfl, rfl⟩ := pure_ok.mp h4
+    have hpl := henv.2 c t hl
+    obtain ⟨hW3, hE3, heq3⟩ := unifyM_ok h3 hW hcx.1 (den_toM (fun _ => .unit) t hpl).2.1
+    refine ⟨hW3, fun σ hσ hs => ⟨hE3.2 σ hs, fun gd hgd => ?_⟩⟩
+    obtain ⟨hd, _, hgt⟩ := den_toM σ t hpl
+    exact ⟨t, false, by simp only [synth, hl]; rfl, by rw [heq3 σ hs, hd]; exact inst_self t hgt, by simp⟩
+
+theorem foldCompat_inst (what : String) (G : Ty) : ∀ (ts : List Ty) (acc : Ty), (∀ t ∈ ts, inst t G = true) →
+    inst acc G = true → ∃ r, foldCompat what ts acc = .ok r ∧ inst r G = true
+  | [], acc, _, hacc => ⟨acc, rfl, hacc⟩
+  | t :: rest, acc, hts, hacc => by
+    have ht := hts t List.mem_cons_self
+    obtain ⟨hc, _⟩ := inst_compat_meet G t acc ht hacc
+    obtain ⟨_, hm⟩ := inst_compat_meet G acc t hacc ht
+    simp only [foldCompat, hc, if_true]
+    exact foldCompat_inst what G rest (meet acc t) (fun t' h' => hts t' (List.mem_cons_of_mem _ h')) hm
+
+theorem listLit_sound {env : Env} {es : List Expr}
+    (ihl : ∀ cx g st d st', WTs st.store → WTcx cx → WTg g → inferList env cx g es st = .ok d st' →
+      PostList env cx g es st d st')
+    {cx : Cx} {g : MGamma} {st : St} {d : Bool} {st' : St} (hW : WTs st.store) (hcx : WTcx cx) (hg : WTg g)
+    (h : infer env cx g (.listLit es) st = .ok d st') : PostE env cx g (.listLit es) st d st' := by
+  simp only [infer] at h
+  obtain ⟨v, s1, h1, h2⟩ := bind_ok.mp h
+  obtain ⟨rfl, hE1⟩ := freshVar_ok h1
+  obtain ⟨u, s2, h3, h4⟩ := bind_ok.mp h2
+  obtain ⟨hW2, hE2, heq2⟩ := unifyM_ok h3 (hE1.1 hW) hcx.1 (WT_tList (WT_var _))
+  obtain ⟨hW3, hp⟩ := ihl (cx.withTy (.var st.store.length)) g s2 d st' hW2 (WTcx_with hcx (WT_var _)) hg h4
+  refine ⟨hW3, fun σ hσ hs => ?_⟩
+  obtain ⟨hs2, hsyn⟩ := hp σ hσ hs
+  refine ⟨hE1.2 σ (hE2.2 σ hs2), fun gd hgd => ?_⟩
+  obtain ⟨ts, dd, a1, a2, a3⟩ := hsyn gd hgd
+  have a1' : synthList env (denCx σ cx) gd es = .ok (ts, dd) := a1
+  have a2' : ∀ t ∈ ts, inst t (σ st.store.length) = true := a2
+  obtain ⟨r, b1, b2⟩ := foldCompat_inst "element" (σ st.store.length) ts .unknown a2' rfl
+  refine ⟨.list r, dd, by simp only [synth, a1', b1, bind, Except.bind, pure, Except.pure], ?_, a3⟩
+  rw [heq2 σ hs2, den_tList]; simp only [inst, den]; exact b2
 
 end RotoV.TcInfer
